@@ -1,4 +1,5 @@
 import MicroHttp.Props.C03
+import MicroHttp.Props.C04Limit
 #print axioms MicroHttp.C03.P0_wf
 #print axioms MicroHttp.C03.inv_new
 #print axioms MicroHttp.C03.tryRead_safe
@@ -6,3 +7,5 @@ import MicroHttp.Props.C03
 #print axioms MicroHttp.C03.ops_safe
 #print axioms MicroHttp.C03.oneShot_no_panic
 #print axioms MicroHttp.C03.requestLine_no_panic
+#print axioms MicroHttp.C04.body_survives_lower_limit
+#print axioms MicroHttp.C04.setLimit_only_limit
